@@ -371,7 +371,8 @@ async def sum(iterable: AnyIterable[Any], start: Any = 0) -> Any:
     """
     total = start
     async for item in aiter(iterable):
-        total += item
+        # not ``+=``: a mutable ``start`` (e.g. a list) must not be modified in-place
+        total = total + item
     return total
 
 
